@@ -135,6 +135,21 @@ theorem C20_batch_sizes {α : Type} (perm : List Nat) (b : Nat) (cols : List (Li
       exact congrArg some this.symm
     exact hsz k bt h1 v hv
 
+
+/-- … and on the batch lengths alone, for any table with at least one field: what the scale probe
+    of the tie evaluates (`dataset sizes`) on datasets too large to spell out row by row. -/
+theorem C20_batch_lengths {α : Type} (perm : List Nat) (b : Nat) (cols : List (List α))
+    (hb : 1 ≤ b) (hcols : ∀ v ∈ cols, v.length = nRows cols)
+    (hperm : perm.Perm (List.range (nRows cols))) (hne : cols ≠ []) :
+    sizesOK (nRows cols) b ((epochBatches perm b cols).map batchLen) = true := by
+  apply sizesOK_of_batchSizesOK _ _ _ (C20_batch_sizes perm b cols hb hcols hperm).2.2.2
+  intro bt hbt
+  simp only [epochBatches, List.mem_map, List.mem_range] at hbt
+  obtain ⟨k, _, rfl⟩ := hbt
+  cases cols with
+  | nil => exact absurd rfl hne
+  | cons c cs => simp
+
 /-- The predicates the driver evaluates on implementation epochs during the failing-input search
     (every emitted row is a stored row; every stored row is emitted exactly once) hold of the
     model's epoch. -/
